@@ -331,7 +331,7 @@ func ruleWebVTTSettings(p *Prog, l *Ledger, tier string) {
 						// "key:" + value
 						for _, inst := range p.instantiate(wr, h, []ssa.Value{val}) {
 							fs := strset{}
-							traceField(inst[0], "", map[ssa.Value]bool{}, fs)
+							traceFieldOrGetter(inst[0], fs)
 							note(sep, c[:len(c)-1], fs)
 						}
 					} else if j > 0 {
@@ -343,7 +343,7 @@ func ruleWebVTTSettings(p *Prog, l *Ledger, tier string) {
 							}
 							fs := strset{}
 							for _, v := range inst[1:] {
-								traceField(v, "", map[ssa.Value]bool{}, fs)
+								traceFieldOrGetter(v, fs)
 							}
 							note(sep, k, fs)
 						}
@@ -684,6 +684,13 @@ func (p *Prog) instantiate(root, h *ssa.Function, vs []ssa.Value) [][]ssa.Value 
 				for _, e := range t.Edges {
 					walk(e)
 				}
+			case *ssa.Call:
+				// the value is produced by a function handed in as a parameter (a getter)
+				if !t.Call.IsInvoke() {
+					if _, isPar := t.Call.Value.(*ssa.Parameter); isPar {
+						walk(t.Call.Value)
+					}
+				}
 			}
 		}
 		walk(v)
@@ -727,4 +734,27 @@ func (p *Prog) instantiate(root, h *ssa.Function, vs []ssa.Value) [][]ssa.Value 
 		}
 	}
 	return out
+}
+
+// traceFieldOrGetter: traceField, except that a function value (a getter passed to a helper) stands
+// for the fields its results are loaded from.
+func traceFieldOrGetter(v ssa.Value, out strset) {
+	var f *ssa.Function
+	switch x := v.(type) {
+	case *ssa.MakeClosure:
+		f, _ = x.Fn.(*ssa.Function)
+	case *ssa.Function:
+		f = x
+	}
+	if f == nil || len(f.Blocks) == 0 {
+		traceField(v, "", map[ssa.Value]bool{}, out)
+		return
+	}
+	for _, b := range f.Blocks {
+		if r, ok := b.Instrs[len(b.Instrs)-1].(*ssa.Return); ok {
+			for _, res := range r.Results {
+				traceField(res, "", map[ssa.Value]bool{}, out)
+			}
+		}
+	}
 }
